@@ -4,7 +4,8 @@ Prints one line per seed: defects must be caught by their own property, refactor
 import json, glob, os, shutil, subprocess, sys, tempfile, re
 from concurrent.futures import ThreadPoolExecutor
 ENV = dict(os.environ, GOFLAGS="-mod=mod", GOPROXY="off", GOSUMDB="off", GOTOOLCHAIN="local"); ENV.pop("GOWORK", None)
-only = sys.argv[1:]  # optional substrings
+WRITE = '--write' in sys.argv  # refresh detected_by in every meta.json (and seeded/TABLE.md)
+only = [a for a in sys.argv[1:] if a != '--write']  # optional substrings
 def run(d):
     m = json.load(open(os.path.join(d, 'meta.json')))
     s = tempfile.mkdtemp(prefix='sc.')
@@ -18,6 +19,14 @@ def run(d):
             if f.endswith('.report.json'):
                 rep = json.load(open(os.path.join(s, 'ev', f)))
                 fired[rep['property_id']] = sorted({"%s[%s]" % (o['rule'], o['status'][:5]) for o in rep['obligations']})
+                if WRITE:
+                    m.setdefault('_detected', {})[rep['property_id']] = sorted({"%s %s [%s]" % (o['rule'], o['construct'], o['status']) for o in rep['obligations']})
+        if WRITE:
+            m['detected_by'] = m.pop('_detected', {})
+            m['detected_by_own_property'] = m['property'] in m['detected_by']
+            head = subprocess.run(['git', '-C', '/verif', 'rev-parse', '--short', 'HEAD'], stdout=subprocess.PIPE, text=True).stdout.strip()
+            m['detected_by_checker_at'] = head
+            json.dump(m, open(os.path.join(d, 'meta.json'), 'w'), indent=1)
         return m, fired
     finally:
         shutil.rmtree(s, ignore_errors=True)
@@ -37,3 +46,5 @@ for m, fired in res:
         bad += 1
     print(tag, m['seed'], ' '.join('%s:%s' % (p, ','.join(r)) for p, r in sorted(fired.items()))[:230])
 print('not ok:', bad, 'of', len(res))
+if WRITE:
+    open('/verif/seeded/TABLE.md', 'w').write(subprocess.run(['python3', '/verif/tools/seed_table.py'], stdout=subprocess.PIPE, text=True).stdout)
